@@ -129,7 +129,7 @@ def scalar_visit(cls: str):
         for f in S.wf_def(ct, cls, Sx):
             c.requires(f)
         c.requires(S.path_ok(ct, p, c.pre_alloc), "path")
-        c.requires(S.float_range(v), "float-repr")
+        c.requires(S.deep_range(v), "float-repr")
         c.paths()
         c.returns("ValidationResult")
         c.raises(props=("C08",))
@@ -431,7 +431,7 @@ def container_visit(cls: str, visitor: str = "Validator"):
         for f in S.wf_def(ct, cls, Sx):
             c.requires(f)
         c.requires(S.path_ok(ct, p, c.pre_alloc), "path")
-        c.requires(S.float_range(v), "float-repr")
+        c.requires(S.deep_range(v), "float-repr")
         c.paths()
         c.returns("ValidationResult")
         c.raises(props=("C08",))
